@@ -7,7 +7,7 @@ EXTENDS ItsChecker, Alpide
 
 \* layer 7 does not exist (RDH sanity reports it); the stave rules treat it as an outer layer
 BarrelOf(fee) == LET ly == Layer(fee) IN IF ly <= 2 THEN "IB" ELSE IF ly <= 4 THEN "ML" ELSE "OL"
-FrInit == [barrel |-> "NONE", inFrame |-> FALSE, has |-> FALSE, start |-> 0, lanes |-> << >>, fatal |-> << >>]
+FrInit == [barrel |-> "NONE", inFrame |-> FALSE, has |-> FALSE, start |-> 0, lanes |-> << >>, fatal |-> << >>, flags |-> NoFlags]
 StaveInit == [ck |-> LinkInit, fr |-> FrInit]
 
 LaneNo(barrel, id) == IF barrel = "IB" THEN IbLane(id) ELSE ObLane(id)
@@ -36,8 +36,11 @@ FrameResult(fr, barrel) ==
        groupOk == \E grp \in IbGroups : laneNos = grp \ SeqToSet(fatal)
        code1 == IF ib THEN "72" ELSE "73"
        code2 == IF ib THEN "74" ELSE "75"
+       RECURSIVE LaneFlags(_)
+       LaneFlags(k) == IF k > n THEN NoFlags ELSE AddFlags(SumFlags(fr.lanes[k].d.trailers, 1), LaneFlags(k + 1))
    IN [panic |-> FALSE,
        fatal |-> fatal,
+       flags |-> LaneFlags(1),          \* readout flags of every chip trailer of every lane of the frame (also of lanes in error or fatal)
        errs |-> If(~countOk \/ (ib /\ ~groupOk), E(fr.start, code1)) \o If(anyErr \/ bcMismatch, E(fr.start, code2))]
 
 \* one word in stave mode: returns [st (ck+fr), errs, sod, panic]
@@ -60,7 +63,7 @@ CheckWordS(ss, r, sod, w, off) ==
          ELSE IF fr.lanes = << >> THEN
               [st |-> [ck |-> base.st, fr |-> [fr EXCEPT !.inFrame = FALSE, !.has = FALSE]], errs |-> base.errs \o E(fr.start, "701"), sod |-> base.sod, panic |-> FALSE]
          ELSE LET res == FrameResult(fr, fr.barrel) IN
-              [st |-> [ck |-> base.st, fr |-> [fr EXCEPT !.inFrame = FALSE, !.has = FALSE, !.lanes = << >>, !.fatal = res.fatal]],
+              [st |-> [ck |-> base.st, fr |-> [fr EXCEPT !.inFrame = FALSE, !.has = FALSE, !.lanes = << >>, !.fatal = res.fatal, !.flags = AddFlags(@, res.flags)]],
                errs |-> base.errs \o res.errs, sod |-> base.sod, panic |-> res.panic]
       ELSE [st |-> [ck |-> base.st, fr |-> fr], errs |-> base.errs, sod |-> base.sod, panic |-> FALSE]
 
